@@ -110,6 +110,22 @@ def vectors(ctx):
                     V.append({"fn": fn, "f0": f, "f1": other, "t0": 1, "t1": 2, "ht": 0, "truth": [[0, 0], [0, 0]],
                               "kind": "air", "hasref": 1 if fn != "adsb.airborne_position" else 0, "r": 1000, "s": 2000,
                               "dt": 0, "case": cell + [fn, int(other is g)], "tot": 1})
+    # boundary-directed frames of the other properties' generators (every value of every field, reserved codes),
+    # judged here for totality only (their values are the other checks' business)
+    from . import c07, c08, c09, c10, c11, c12, c13
+    for mod, keep in ((c07, 5), (c08, 9), (c09, 3), (c10, 4), (c13, 5), (c11, 9), (c12, 4)):
+        for k, v in enumerate(mod.vectors(ctx)):
+            if k % keep == ctx.seed % keep and v["fn"] not in ("monotone", "crc_legacy", "bds.is50or60") and "frame" in v:
+                v = dict(v)
+                v["tot"] = 1
+                v["case"] = ["borrowed", mod.__name__[-3:], k]
+                V.append(v)
+    # tell() on every surface movement code and every TC19 / TC29 boundary frame
+    for mov in range(128):
+        f = gen.rand_frame_df(rng, 17)
+        f = gen.set_bits(f, 33, 37, rng.randint(5, 8))
+        f = gen.set_bits(f, 38, 44, mov)
+        V.append({"fn": "tell", "frame": f, "case": ["tell_mov", mov], "cs": 0})
     # seeded random frames through a random subset of the catalogue
     for k in range(ctx.pick(1500, 150000)):
         df = rng.randrange(32)
